@@ -94,6 +94,30 @@ func (a dtAtoms) K(name string) int64 {
 	return v
 }
 
+// quorumFirst: per type-checked package, the position of the first comparison of `required` (rows are re-run per view).
+var quorumFirst = map[*types.Info]token.Pos{}
+
+// firstComparisonOf: n is an ordering comparison (< <= > >=) one of whose operands is the local called name; that operand.
+func firstComparisonOf(info *types.Info, n ast.Node, name string) ast.Expr {
+	be, ok := n.(*ast.BinaryExpr)
+	if !ok {
+		return nil
+	}
+	switch be.Op {
+	case token.LSS, token.LEQ, token.GTR, token.GEQ:
+	default:
+		return nil
+	}
+	for _, side := range []ast.Expr{be.X, be.Y} {
+		if id, isId := an.Unparen(side).(*ast.Ident); isId && id.Name == name {
+			if v, isVar := info.ObjectOf(id).(*types.Var); isVar && !v.IsField() {
+				return id
+			}
+		}
+	}
+	return nil
+}
+
 type dtRow struct {
 	fn     string // method of TwoPCArchetypeResource (or "T.m" for another receiver type)
 	key    string
@@ -117,6 +141,11 @@ type dtRow struct {
 	// existsOthers: atoms the table does not declare are context, not part of the decision: the effect "happens" for an
 	// assignment of the declared atoms if it happens for some assignment of the others
 	existsOthers bool
+	// track: the row is about the value an integer local has accumulated: always read under dtTrack
+	track bool
+	// ifExists: the row describes a helper predicate that callers are read through (it is inlined where it is used): when
+	// the helper does not exist the rows about its callers carry the obligation alone
+	ifExists bool
 }
 
 func runTPCDecision(c *core.Ctx) {
@@ -265,7 +294,7 @@ func runTPCDecision(c *core.Ctx) {
 		{fn: "shouldAbortPreCommit", key: "states", why: "no local pre-commit for a doomed section, nor while a remote pre-commit is granted", exprOf: retExpr,
 			ints: map[string]string{"$.criticalSectionState": "CriticalSectionState", "$.twoPCState": "TwoPCState"},
 			ref:  func(a dtAtoms) bool { return permFailed(a) || a.I("$.twoPCState") == a.K("acceptedPreCommit") }},
-		{fn: "inCriticalSection", key: "states", why: "every state but notInCriticalSection is inside a section", exprOf: retExpr, ints: csOnly,
+		{fn: "inCriticalSection", key: "states", ifExists: true, why: "every state but notInCriticalSection is inside a section", exprOf: retExpr, ints: csOnly,
 			ref: func(a dtAtoms) bool { return a.I("$.criticalSectionState") != a.K("notInCriticalSection") }},
 		// ---------------- section operations
 		{fn: "ReadValue", key: "aborts-doomed-section", why: "a doomed section must not read",
@@ -293,26 +322,31 @@ func runTPCDecision(c *core.Ctx) {
 			}},
 		// ---------------- quorum arithmetic
 		{fn: "broadcast", key: "quorum-size", why: "with the proposer itself, `required` further acknowledgements make a strict majority of the replicas+1 group: ceil(N/2)",
+			// the value `required` has when the wait for responses first tests it, whatever sequence of assignments produced it
 			find: func(info *types.Info, n ast.Node) bool {
-				as, ok := n.(*ast.AssignStmt)
-				return ok && len(as.Lhs) == 1 && an.ObjOf(info, as.Lhs[0]) != nil && an.ObjOf(info, as.Lhs[0]).Name() == "required" && as.Tok == token.ASSIGN
+				id := firstComparisonOf(info, n, "required")
+				if id == nil {
+					return false
+				}
+				if p, seen := quorumFirst[info]; seen && p != id.Pos() {
+					return p > id.Pos() && func() bool { quorumFirst[info] = id.Pos(); return true }()
+				}
+				quorumFirst[info] = id.Pos()
+				return true
 			},
-			valueOf: func(info *types.Info, n ast.Node) ast.Expr { return n.(*ast.AssignStmt).Rhs[0] },
+			valueOf: func(info *types.Info, n ast.Node) ast.Expr { return firstComparisonOf(info, n, "required") },
 			ints:    map[string]string{"len($.replicas)": ""}, intDom: map[string][]int64{"len($.replicas)": {0, 1, 2, 3, 4, 5, 6, 7, 8, 9}},
+			track:  true,
 			refInt: func(a dtAtoms) int64 { return (a.I("len($.replicas)") + 1) / 2 }},
 		{fn: "broadcast", key: "waits-while-undecided", why: "keep collecting responses while more acknowledgements are needed and still possible",
-			exprOf: func(info *types.Info, fn *an.Func) ast.Expr {
-				var cond ast.Expr
-				ast.Inspect(fn.Body(), func(m ast.Node) bool {
-					if _, isLit := m.(*ast.FuncLit); isLit {
-						return false
-					}
-					if f, ok := m.(*ast.ForStmt); ok && f.Cond != nil && cond == nil {
-						cond = f.Cond
-					}
-					return true
-				})
-				return cond
+			// a response is awaited exactly while ...
+			find: func(info *types.Info, n ast.Node) bool {
+				u, ok := n.(*ast.UnaryExpr)
+				if !ok || u.Op != token.ARROW {
+					return false
+				}
+				o := an.ObjOf(info, u.X)
+				return o != nil && o.Name() == "responses"
 			},
 			ints: map[string]string{"required": "", "remaining": ""},
 			ref:  func(a dtAtoms) bool { return a.I("required") > 0 && a.I("remaining") >= a.I("required") }},
@@ -467,12 +501,34 @@ var dtResolvePure bool
 // at its header), and a range loop is entered iff the ranged-over collection is non-empty.
 var dtUnroll bool
 
+// dtTrack: the values assigned to integer locals are carried along each path (`n := a / 2; if odd { n++ }` reaches the
+// effect with n = a/2 or a/2+1), instead of reading every mention of such a local as a free term.
+var dtTrack bool
+
 func runDecisionRows(c *core.Ctx, e *Env, pkgPath, defaultType string, rows []dtRow) {
+	runWith := func(ctx *core.Ctx, rs []dtRow, pure, unroll, track bool) {
+		var plain, tracked []dtRow
+		for _, r := range rs {
+			if r.track && !track {
+				tracked = append(tracked, r)
+			} else {
+				plain = append(plain, r)
+			}
+		}
+		if len(plain) > 0 {
+			dtResolvePure, dtUnroll, dtTrack = pure, unroll, track
+			runDecisionRowsOnce(ctx, e, pkgPath, defaultType, plain)
+		}
+		if len(tracked) > 0 {
+			dtResolvePure, dtUnroll, dtTrack = pure, unroll, true
+			runDecisionRowsOnce(ctx, e, pkgPath, defaultType, tracked)
+		}
+		dtResolvePure, dtUnroll, dtTrack = false, false, false
+	}
 	c1 := c.Fork()
-	dtResolvePure, dtUnroll = false, false
-	runDecisionRowsOnce(c1, e, pkgPath, defaultType, rows)
+	runWith(c1, rows, false, false, false)
 	// further readings of the same code, tried only for the rows that fail: a row holds if it holds under one of them
-	for _, mode := range [][2]bool{{true, false}, {true, true}} {
+	for _, mode := range [][3]bool{{true, false, false}, {true, true, false}, {true, false, true}, {true, true, true}} {
 		bad := map[string]bool{}
 		for _, o := range c1.Obs {
 			if o.Verdict != core.OK {
@@ -492,9 +548,7 @@ func runDecisionRows(c *core.Ctx, e *Env, pkgPath, defaultType string, rows []dt
 			break
 		}
 		c2 := c.Fork()
-		dtResolvePure, dtUnroll = mode[0], mode[1]
-		runDecisionRowsOnce(c2, e, pkgPath, defaultType, retry)
-		dtResolvePure, dtUnroll = false, false
+		runWith(c2, retry, mode[0], mode[1], mode[2])
 		// a row may produce several obligations under one construct: it is better only if none of them fails
 		worse := map[string]bool{}
 		for _, o := range c2.Obs {
@@ -529,6 +583,17 @@ func runDecisionRowsOnce(c *core.Ctx, e *Env, pkgPath, defaultType string, rows 
 	for _, row := range rows {
 		key := row.fn + ":" + row.key
 		var fn *an.Func
+		if row.ifExists {
+			tn := defaultType
+			mn := row.fn
+			if i := indexByte(row.fn, '.'); i > 0 {
+				tn, mn = row.fn[:i], row.fn[i+1:]
+			}
+			if e.Ix.LookupMethod(pkgPath, tn, mn) == nil {
+				c.Ok(key, token.NoPos, "%s: no such helper in this tree (its callers are read directly)", row.why)
+				continue
+			}
+		}
 		if i := indexByte(row.fn, '.'); i == 0 {
 			fn = mustFunc(c, e, pkgPath, row.fn[1:])
 		} else if i > 0 {
@@ -573,6 +638,12 @@ func runDecisionRowsOnce(c *core.Ctx, e *Env, pkgPath, defaultType string, rows 
 		if row.exprOf != nil {
 			expr = row.exprOf(info, fn)
 			if expr == nil {
+				// a predicate written with several returns: it "does it" (returns true) iff one of its paths holds
+				for _, pth := range ev.predicatePaths(fn) {
+					effs = append(effs, eff{paths: [][]dtGuard{pth}, node: fn.Decl})
+				}
+			}
+			if expr == nil && len(effs) == 0 {
 				c.Lost(key, "the expression this row describes was not found in %s", fn.Name())
 				continue
 			}
@@ -1072,6 +1143,10 @@ func runDecisionRowsOnce(c *core.Ctx, e *Env, pkgPath, defaultType string, rows 
 						hits := 0
 						for _, ef := range effs {
 							ok := false
+							vfr := fr
+							if ef.fr != nil {
+								vfr = ef.fr
+							}
 							for _, pth := range ef.paths {
 								o, err := ev.evalGuards(pth, fr, env)
 								if err != nil {
@@ -1079,14 +1154,26 @@ func runDecisionRowsOnce(c *core.Ctx, e *Env, pkgPath, defaultType string, rows 
 									return false
 								}
 								ok = ok || o
+								if o && dtTrack {
+									// the value depends on what the path assigned: every path that applies must give it
+									v, err := ev.evalInt(ef.value, vfr, env)
+									if err != nil {
+										evalErr = err
+										return false
+									}
+									if want := row.refInt(a); v != want {
+										mismatch = fmt.Sprintf("for %s the code computes %d, the table %d", env, v, want)
+										return false
+									}
+								}
 							}
+							env.store = nil
 							if !ok {
 								continue
 							}
 							hits++
-							vfr := fr
-							if ef.fr != nil {
-								vfr = ef.fr
+							if dtTrack {
+								continue
 							}
 							v, err := ev.evalInt(ef.value, vfr, env)
 							if err != nil {
